@@ -502,7 +502,7 @@ func (sl *SignalLayout) shiftLeft(sigID EntityID, amount int) int {
 		return 0
 	}
 
-	perfShift := amount
+	perfShift := 0
 	var prevSig Signal
 
 	for idx, tmpSig := range sl.signals {
@@ -543,7 +543,7 @@ func (sl *SignalLayout) shiftRight(sigID EntityID, amount int) int {
 		return 0
 	}
 
-	perfShift := amount
+	perfShift := 0
 	var nextSig Signal
 
 	for idx, tmpSig := range sl.signals {
